@@ -329,7 +329,27 @@ def run_zcross(case):
 
 
 # ------------------------------------------------------------------ unwrap
-UNWRAP = [("1", "2"), ("1/2", "1"), ("2", "1"), ("3", "2"), ("1", "5")]
+UNWRAP = [("1", "2"), ("1/2", "1"), ("2", "1"), ("3", "2"), ("1", "5"), ("1", "3"), ("1/4", "1")]
+
+
+def check_unwrap(x, got, m, s, md, st):
+  if len(got) != len(x):
+    return bad("unwrap:length", "one output per input", len(x), len(got))
+  g = [fq(v) for v in got]
+  for a, b in zip(g, x):
+    if ((a - b) / s).denominator != 1:
+      return bad("unwrap:step", "samples may only change by multiples of step", {"step": st}, got)
+  if all(abs(x[i] - x[i - 1]) <= m for i in range(1, len(x))):
+    if g != x:
+      return bad("unwrap:untouched", "a sequence with no jump above max_delta must be left untouched", x, got)
+  lim = max(m, s / 2)
+  for i in range(1, len(g)):
+    if abs(g[i] - g[i - 1]) > lim:
+      return bad("unwrap:jump", "an adjacent output jump exceeds max(max_delta, step/2)",
+                 {"max_delta": md, "step": st, "limit": lim}, got)
+  if g and g[0] != x[0]:
+    return bad("unwrap:first", "the first sample must be unchanged", x[0], got[0])
+  return None
 
 
 def run_unwrap(case):
@@ -337,30 +357,20 @@ def run_unwrap(case):
   jumps = False
   for md, st in UNWRAP:
     m, s = F(md), F(st)
-    try:
+    for ptype in ("Q", "plain"):
+     # "plain": integral parameters as Python ints, others as Fractions (type-dependent paths)
+     conv = Q if ptype == "Q" else (lambda v: int(v) if F(v).denominator == 1 else F(v))
+     try:
       list(unwrap([Q(0), Q(9), Q(-9)], max_delta=Q(m) + 1, step=Q(s) * 3))                              # decoy
-      got = list(unwrap([Q(v) for v in x], max_delta=Q(m), step=Q(s)))
-    except Exception as exc:
+      got = list(unwrap([Q(v) for v in x], max_delta=conv(m), step=conv(s)))
+     except Exception as exc:
       return bad("unwrap:exception:" + type(exc).__name__, "unwrap raised (an empty input must give an "
                  "empty stream)", [], str(exc)[:200])
-    if len(got) != len(x):
-      return bad("unwrap:length", "one output per input", len(x), len(got))
-    g = [fq(v) for v in got]
-    for a, b in zip(g, x):
-      if ((a - b) / s).denominator != 1:
-        return bad("unwrap:step", "samples may only change by multiples of step", {"step": st}, got)
-    if all(abs(x[i] - x[i - 1]) <= m for i in range(1, len(x))):
-      if g != x:
-        return bad("unwrap:untouched", "a sequence with no jump above max_delta must be left untouched", x, got)
-    else:
-      jumps = True
-    lim = max(m, s / 2)
-    for i in range(1, len(g)):
-      if abs(g[i] - g[i - 1]) > lim:
-        return bad("unwrap:jump", "an adjacent output jump exceeds max(max_delta, step/2)",
-                   {"max_delta": md, "step": st, "limit": lim}, got)
-    if g and g[0] != x[0]:
-      return bad("unwrap:first", "the first sample must be unchanged", x[0], got[0])
+     r_ = check_unwrap(x, got, m, s, md, st)
+     if r_ is not None:
+       return r_
+     if any(abs(x[i] - x[i - 1]) > m for i in range(1, len(x))):
+       jumps = True
   # float default (pi, 2*pi)
   xf = [float(v) * 2.5 for v in x]
   got = list(unwrap(list(xf)))
@@ -373,6 +383,16 @@ def run_unwrap(case):
   return R(None, jumps, len(x))
 
 
+ALPHA_FINE = ["-2", "-3/4", "0", "1/4", "1/2", "1", "7/4", "3"]
+
+
+def gen_fine(run):
+  """Shorter sequences over a finer alphabet: fractional remainders on both sides of step/2."""
+  for n in range(0, run.pick(4, 5) + 1):
+    for s_ in itertools.product(ALPHA_FINE, repeat=n):
+      yield list(s_)
+
+
 KINDS = OrderedDict([
   ("maverage", Kind(gen_maverage, run_maverage, chunk=10, rule="strategy x size x zero kind x length on symbolic input")),
   ("reuse", Kind(gen_interleave, run_interleave, chunk=2, rule="one filter object, two signals, interleaved consumption")),
@@ -381,5 +401,7 @@ KINDS = OrderedDict([
   ("envelope", Kind(gen_envelope, run_envelope, chunk=20, rule="all sequences x strategies x cut-offs")),
   ("clip", Kind(gen_pointwise, run_clip, chunk=200, rule="all sequences x all limit pairs")),
   ("zcross", Kind(gen_pointwise, run_zcross, chunk=200, rule="all sequences x hysteresis x first_sign; non-trivial: a crossing is expected")),
-  ("unwrap", Kind(gen_pointwise, run_unwrap, chunk=200, rule="all sequences x (max_delta, step) pairs; non-trivial: a jump above max_delta")),
+  ("unwrap", Kind(gen_pointwise, run_unwrap, chunk=200, rule="all sequences x (max_delta, step) pairs x parameter types; non-trivial: a jump above max_delta")),
+  ("unwrap-fine", Kind(gen_fine, run_unwrap, chunk=100, rule="sequences over a finer 8-value alphabet (length <= 4) x the same configurations")),
+  ("zcross-fine", Kind(gen_fine, run_zcross, chunk=100, rule="sequences over the finer alphabet x hysteresis x first_sign")),
 ])
